@@ -2,7 +2,8 @@
   C01.3 — the compiler and the backtracking VM agree with the reference semantics on a
   fragment of jq with closures, recursion and error handling (Model/MiniVM.lean): identity,
   constants, pipe, comma, `.[]`, `.name`, `empty`, `[q]`, `error`, `try b`, `try b catch h`,
-  `if c then a else b end`, `l // r`, `$x`, `src as $x | body`, one-filter-parameter functions `def f(g): …` with arbitrary recursion, the parameter `g`,
+  `if c then a else b end`, `l // r`, `$x`, `src as $x | body`,
+  `reduce src as $x (init; upd)`, `foreach src as $x (init; upd; ext)`, one-filter-parameter functions `def f(g): …` with arbitrary recursion, the parameter `g`,
   calls `f(a)` whose argument is passed as a closure.  What the fragment takes from the host
   library — `funcIndex2` behind `.name` and the texts of the two error messages `catch` can
   receive — is a parameter (`IterMsg`): the theorems hold for every choice of it.
